@@ -79,6 +79,17 @@ var specs = map[string]*propSpec{
 			{Name: "optdec", Flavour: "plain", Env: []string{"SONIC_USE_OPTDEC=1"}, Quick: 100000, Thorough: 5000000, PerProc: 20000, Progress: true, TimeoutS: 600},
 		},
 	},
+	"C15": {
+		ID:   "C15",
+		Rule: "one run = one generated document (depth<=3, escaped/empty/duplicate keys, objects above the 16-pair index threshold) and a history of 1-12 operations (Get, Index, IndexPair, Len, Values, Properties, ForEach, Interface, MarshalJSON, Raw, Set, SetByIndex, SetAny, Add, Unset, UnsetByIndex, Pop, Move, SortKeys) on the root and on nodes re-resolved by path, interleaved with forced representation changes that must be unobservable (Load, LoadAll, Check/Valid/Exists, Raw, MarshalJSON, Interface, full iteration, Get of a missing key); the same history runs on three representations (lazy NewRaw node, NewRaw+LoadAll, tree built with constructors; new children inserted as raw or as constructed nodes) and on a reference model written from the documentation; every operation's result and the final MarshalJSON (values + key order) must agree; non-trivial = every run; distinct = distinct trace hash",
+		Assume: []string{
+			"no thread schedule or external fault in this property: the technique contributes seeded history search with a reference model and the injected event kind 'representation change at an arbitrary point' (DESIGN 3, C15 caveat)",
+			"the model follows the doc comments (DESIGN Appendix A): pointers are never kept across pointer-invalidating operations, Move gets in-range arguments only, V_ANY leaves are never operation targets, Interface is not compared on documents with duplicate keys",
+		},
+		Batches: []batch{
+			{Name: "history", Flavour: "plain", Quick: 300000, Thorough: 20000000, PerProc: 20000, TimeoutS: 600},
+		},
+	},
 	"C08": {
 		ID:   "C08",
 		Rule: "one run = 1-4 fresh dynamic types (reflect.StructOf etc., never seen by the process: first-use compilation happens inside the run) + callback types that yield mid-encode/mid-decode, 2-6 clients x 1-6 API calls (Marshal, MarshalString, MarshalIndent, EncodeInto, Unmarshal, UnmarshalString, Valid, Get, Pretouch with compile options), several clients sharing one type, program-cache capacity 2..4096 and pool hit/miss/steal decisions from the tape, injected callback panics in a quarter of the runs; non-trivial = more context switches than clients; distinct = distinct trace hash",
